@@ -44,8 +44,28 @@ ASSUMPTIONS = ['dimensions: plasTeX stores floats, the oracle is the exact ratio
 OUTSIDE = ['signatures with more than 3 arguments', 'mu units in literals', 'arguments of type url/label/ref', 'literals followed by a newline']
 BUDGET_S = {'quick': 900, 'thorough': 3300}
 
-FOLLOW = ['x', ' x', '', ' ', '\\relax x', '{x}', '.x']
-FOLLOW_CS = ['1', ' x', '', ' ', '\\relax x', '{x}', '.x']        # after a control word
+FOLLOW = ['x', ' x', '', ' ', '\\relax x', '{x}', '.x', ' \\probe x']
+FOLLOW_CS = ['1', ' x', '', ' ', '\\relax x', '{x}', '.x', ' \\probe x']        # after a control word
+
+
+class probe(plasTeX.Command):
+    """a macro with a side effect: it must not run while the number before it (ended by a blank) is still being read"""
+    hits = 0
+
+    def invoke(self, tex):
+        probe.hits += 1
+
+
+def _doc():
+    doc = TeXDocument()
+    doc.context.addGlobal('probe', probe)
+    probe.hits = 0
+    return doc
+
+
+def _probe_untouched(e, follow, what):
+    if 'probe' in follow:
+        e.check(probe.hits == 0, 'the macro after the blank that ends the %s was expanded while the %s was being read' % (what, what), 'lookahead-expanded')
 UNITS = {'pt': Fraction(1), 'pc': Fraction(12), 'in': Fraction(7227, 100), 'bp': Fraction(7227, 7200), 'cm': Fraction(7227, 254),
          'mm': Fraction(7227, 2540), 'dd': Fraction(1238, 1157), 'cc': Fraction(14856, 1157), 'sp': Fraction(1, 65536),
          'ex': Fraction(5), 'em': Fraction(11)}
@@ -131,7 +151,7 @@ def _digval(c):
 
 
 def h_int(e, radix, nsigns, ndig, follow):
-    doc = TeXDocument()
+    doc = _doc()
     signs = []
     for i in range(nsigns):
         c = e.char('s%d' % i, 32, 45)
@@ -161,6 +181,7 @@ def h_int(e, radix, nsigns, ndig, follow):
         e.fail_exception(ex)
         return
     e.check(plasTeX.ParameterCommand._enablelevel == lvl, 'parameter-enable level not restored by readInteger', 'enable-level')
+    _probe_untouched(e, follow, 'number')
     # ---- oracle
     sign, k = _signs(e, chars)
     if mark:
@@ -185,7 +206,7 @@ def h_int(e, radix, nsigns, ndig, follow):
 
 
 def h_charcode(e, follow):
-    doc = TeXDocument()
+    doc = _doc()
     c = e.char('c', 33, 0x2FF)
     e.assume(e.none_of(c, '\\{}$&#^_~%'))
     s = e.char('s', 32, 45)
@@ -201,6 +222,7 @@ def h_charcode(e, follow):
         e.fail_exception(ex)
         return
     e.check(plasTeX.ParameterCommand._enablelevel == lvl, 'parameter-enable level not restored', 'enable-level')
+    _probe_untouched(e, follow, 'character code')
     sign = -1 if eq(s, '-') else 1
     e.nontriv()
     e.check(n == sign * ord_(c), 'character constant value', 'int-value:char')
@@ -211,7 +233,7 @@ def h_charcode(e, follow):
 
 
 def h_intreg(e, follow):
-    doc = TeXDocument()
+    doc = _doc()
     doc.context.newcount('ra')
     v = e.int('ra')
     doc.context['ra'].value = e.num(plasTeX.count, v)
@@ -225,6 +247,7 @@ def h_intreg(e, follow):
     n = tex.readInteger()
     rest = _rest(tex)
     e.check(plasTeX.ParameterCommand._enablelevel == lvl, 'parameter-enable level not restored', 'enable-level')
+    _probe_untouched(e, follow, 'register')
     sign, k = _signs(e, chars)
     e.nontriv()
     e.check(n == sign * v, 'register value/sign', 'int-value:register')
@@ -269,7 +292,7 @@ def _unit(e, pfx, allow_fil=False):
 
 
 def h_dimen(e, form, true_kw, follow, nsigns=1):
-    doc = TeXDocument()
+    doc = _doc()
     signs = []
     for i in range(nsigns):
         c = e.char('s%d' % i, 32, 45)
@@ -291,6 +314,7 @@ def h_dimen(e, form, true_kw, follow, nsigns=1):
         e.fail_exception(ex)
         return
     e.check(plasTeX.ParameterCommand._enablelevel == lvl, 'parameter-enable level not restored by readDimen', 'enable-level')
+    _probe_untouched(e, follow, 'dimension')
     if name is None:
         e.tag('no-unit')
         return
@@ -313,7 +337,7 @@ def h_dimen(e, form, true_kw, follow, nsigns=1):
 
 
 def h_dimreg(e, follow, mult):
-    doc = TeXDocument()
+    doc = _doc()
     doc.context.newdimen('da')
     dv = e.real('da')
     e.assume(api.and_(dv <= 2 ** 30, dv >= -2 ** 30))          # TeX's dimension range
@@ -335,6 +359,7 @@ def h_dimreg(e, follow, mult):
     v = tex.readDimen()
     rest = _rest(tex)
     e.check(plasTeX.ParameterCommand._enablelevel == lvl, 'parameter-enable level not restored', 'enable-level')
+    _probe_untouched(e, follow, 'register')
     sign = -1 if eq(s, '-') else 1
     e.nontriv()
     e.check(v * den == sign * num * dv, 'register (multiple) value', 'dimen-value:register')
@@ -344,7 +369,7 @@ def h_dimreg(e, follow, mult):
 
 def h_decimal(e, form, nsigns, follow):
     """<optional signs><decimal constant> read by readDecimal (the scanner behind float-typed arguments)"""
-    doc = TeXDocument()
+    doc = _doc()
     signs = []
     for i in range(nsigns):
         c = e.char('s%d' % i, 32, 45)
@@ -362,6 +387,7 @@ def h_decimal(e, form, nsigns, follow):
         e.fail_exception(ex)
         return
     e.check(plasTeX.ParameterCommand._enablelevel == lvl, 'parameter-enable level not restored', 'enable-level')
+    _probe_untouched(e, follow, 'decimal constant')
     sign, k = _signs(e, chars)
     e.nontriv()
     diff = v * den - sign * num
@@ -378,7 +404,7 @@ def h_decimal(e, form, nsigns, follow):
 
 def h_gluereg(e, kind, stretch, shrink, follow):
     """<optional signs><internal glue>: all three components of the register, with the sign applied to each"""
-    doc = TeXDocument()
+    doc = _doc()
     cls = plasTeX.glue if kind == 'glue' else plasTeX.muglue
     (doc.context.newskip if kind == 'glue' else doc.context.newmuskip)('ga')
     comp = {None: None, 'pt': 2 * 65536.0, 'fil': 2e9 + 3.0, 'filll': 6e9 + 1.0}
@@ -406,6 +432,7 @@ def h_gluereg(e, kind, stretch, shrink, follow):
         e.fail_exception(ex)
         return
     e.check(plasTeX.ParameterCommand._enablelevel == lvl, 'parameter-enable level not restored by reading an internal %s: later register assignments are skipped' % kind, 'enable-level')
+    _probe_untouched(e, follow, 'register')
     sign, k = _signs(e, chars)
     e.nontriv()
     e.check(g == sign * dv, 'internal %s: natural size / sign' % kind, 'glue-value:register')
@@ -424,7 +451,7 @@ FILS = {'fil': 2, 'fill': 4, 'filll': 6}
 
 def h_glue(e, stretch, shrink, follow):
     """<dimen> [plus <dimen|fil>] [minus <dimen|fil>]"""
-    doc = TeXDocument()
+    doc = _doc()
     dchars, num, den = _decimal(e, 'D.D', 'd')
     chars = list(dchars) + list('pt')
     exp = {}
@@ -452,6 +479,7 @@ def h_glue(e, stretch, shrink, follow):
         e.fail_exception(ex)
         return
     e.check(plasTeX.ParameterCommand._enablelevel == lvl, 'parameter-enable level not restored by readGlue', 'enable-level')
+    _probe_untouched(e, follow, 'glue')
     e.nontriv()
     d0 = g * den - num * 65536
     e.check(api.and_(d0 <= 2 * den, d0 >= -2 * den), 'glue natural size', 'glue-value')
@@ -949,6 +977,14 @@ def jobs(tier, seed):
                     continue
                 J.append(dict(harness='h_dimen', params=dict(form=form, true_kw=tk, follow=f, nsigns=1 if q else 2),
                               label='dimen %s %s %r' % (form, tk, f)))
+    if q:
+        # the side-effect follower for the scanners whose quick follower lists are cut short
+        pf = FOLLOW[-1]
+        for form in ('D.D', '.D', 'D.'):
+            J.append(dict(harness='h_dimen', params=dict(form=form, true_kw='none', follow=pf, nsigns=1), label='dimen %s none %r' % (form, pf), no_twin=True))
+            J.append(dict(harness='h_decimal', params=dict(form=form, nsigns=1, follow=pf), label='decimal %s s1 %r' % (form, pf), no_twin=True))
+        for st, sh in ((None, None), ('pt', None), ('fil', 'pt'), (None, 'filll')):
+            J.append(dict(harness='h_glue', params=dict(stretch=st, shrink=sh, follow=pf), label='glue %s %s %r' % (st, sh, pf), no_twin=True))
     comps = [None, 'pt', 'fil', 'fill', 'filll'] + ([] if q else ['mm', 'em'])
     for st in comps:
         for sh in comps:
